@@ -59,6 +59,8 @@ type C28Thread struct {
 	// per-operation write-straddle bookkeeping (owned by the thread)
 	opFirstW, opLastW int64
 	opCalls           int
+	opLive            int          // calls on the live DB since OpStart
+	opSnaps           map[int64]bool // snapshots read since OpStart
 }
 
 type c28Ev struct {
@@ -79,6 +81,7 @@ type C28Gate struct {
 	// LiveReadsByQuery counts live-DB reads/writes performed by the query thread.
 	QLiveReads  atomic.Int64
 	QLiveWrites atomic.Int64
+	snapSeq     atomic.Int64
 }
 
 func NewC28Gate() *C28Gate {
@@ -146,7 +149,13 @@ func (g *C28Gate) Point(kind string) *C28Thread {
 }
 
 // OpStart resets the straddle bookkeeping of the calling thread.
-func (th *C28Thread) OpStart() { th.opCalls, th.opFirstW, th.opLastW = 0, 0, 0 }
+func (th *C28Thread) OpStart() {
+	th.opCalls, th.opFirstW, th.opLastW, th.opLive, th.opSnaps = 0, 0, 0, 0, map[int64]bool{}
+}
+
+// OpIsolated reports whether every DB read since OpStart was served by one
+// and the same snapshot (never by the live DB).
+func (th *C28Thread) OpIsolated() bool { return th.opLive == 0 && len(th.opSnaps) == 1 }
 
 // OpStraddled reports whether the thread's DB calls since OpStart happened on
 // both sides of at least one physical write.
@@ -354,8 +363,14 @@ type C28DB struct {
 
 func NewC28DB(db dbm.DB, g *C28Gate) *C28DB { return &C28DB{DB: db, G: g} }
 
-func (d *C28DB) read() {
-	if th := d.G.Point(C28KGet); th != nil && th.ID == 1 {
+func (d *C28DB) read() { d.live(d.G.Point(C28KGet)) }
+
+func (d *C28DB) live(th *C28Thread) {
+	if th == nil {
+		return
+	}
+	th.opLive++
+	if th.ID == 1 {
 		d.G.QLiveReads.Add(1)
 	}
 }
@@ -400,9 +415,7 @@ func (d *C28DB) DeleteSync(k []byte) error {
 }
 
 func (d *C28DB) Iterator(s, e []byte) (dbm.Iterator, error) {
-	if th := d.G.Point(C28KIter); th != nil && th.ID == 1 {
-		d.G.QLiveReads.Add(1)
-	}
+	d.live(d.G.Point(C28KIter))
 	it, err := d.DB.Iterator(s, e)
 	if err != nil {
 		return nil, err
@@ -411,9 +424,7 @@ func (d *C28DB) Iterator(s, e []byte) (dbm.Iterator, error) {
 }
 
 func (d *C28DB) ReverseIterator(s, e []byte) (dbm.Iterator, error) {
-	if th := d.G.Point(C28KIter); th != nil && th.ID == 1 {
-		d.G.QLiveReads.Add(1)
-	}
+	d.live(d.G.Point(C28KIter))
 	it, err := d.DB.ReverseIterator(s, e)
 	if err != nil {
 		return nil, err
@@ -432,7 +443,7 @@ func (d *C28DB) NewSnapshot() (dbm.Snapshot, error) {
 	if err != nil {
 		return nil, err
 	}
-	return &c28Snap{Snapshot: s, g: d.G}, nil
+	return &c28Snap{Snapshot: s, g: d.G, id: d.G.snapSeq.Add(1)}, nil
 }
 
 type c28Iter struct {
@@ -464,13 +475,20 @@ func (b *c28Batch) WriteSync() error {
 
 type c28Snap struct {
 	dbm.Snapshot
-	g *C28Gate
+	g  *C28Gate
+	id int64
 }
 
-func (s *c28Snap) Get(k []byte) ([]byte, error) { s.g.Point(C28KSnapGet); return s.Snapshot.Get(k) }
-func (s *c28Snap) Has(k []byte) (bool, error)   { s.g.Point(C28KSnapGet); return s.Snapshot.Has(k) }
+func (s *c28Snap) pt() {
+	if th := s.g.Point(C28KSnapGet); th != nil && th.opSnaps != nil {
+		th.opSnaps[s.id] = true
+	}
+}
+
+func (s *c28Snap) Get(k []byte) ([]byte, error) { s.pt(); return s.Snapshot.Get(k) }
+func (s *c28Snap) Has(k []byte) (bool, error)   { s.pt(); return s.Snapshot.Has(k) }
 func (s *c28Snap) Iterator(a, e []byte) (dbm.Iterator, error) {
-	s.g.Point(C28KSnapGet)
+	s.pt()
 	it, err := s.Snapshot.Iterator(a, e)
 	if err != nil {
 		return nil, err
@@ -479,7 +497,7 @@ func (s *c28Snap) Iterator(a, e []byte) (dbm.Iterator, error) {
 }
 
 func (s *c28Snap) ReverseIterator(a, e []byte) (dbm.Iterator, error) {
-	s.g.Point(C28KSnapGet)
+	s.pt()
 	it, err := s.Snapshot.ReverseIterator(a, e)
 	if err != nil {
 		return nil, err
